@@ -151,6 +151,19 @@ PROBES = [
 ]
 
 # positive-only probes: programs that must compile (correct use; auto traits of keys for C17)
+
+# ---- method availability per key kind (generated): the API table below is the specification; a method reachable on another kind
+# lets that kind be used in the other's role (e.g. public_key() on a PKE secret key yields a token-verification key)
+_KINDS = ["Local", "Public", "Secret", "PkePublic", "PkeSecret"]
+_METHOD_KINDS = {"public_key": ["Secret"], "seal": ["Local"], "random": ["Local", "Secret"],
+                 "wrap_pie": ["Local", "Secret"], "password_wrap": ["Local", "Secret"], "password_wrap_with_params": ["Local", "Secret"]}
+for _m, _ok in _METHOD_KINDS.items():
+    for _y in _KINDS:
+        if _y not in _ok:
+            PROBES.append(P(f"M-{_m}-{_y}", f"call Key::{_m} on a {_y} key (defined for {'/'.join(_ok)} only)",
+                            "fn f() {{ let _ = <Key<V, " + _y + ">>::" + _m + "; }}",
+                            "fn f() {{ let _ = <Key<V, " + _ok[0] + ">>::" + _m + "; }}", {"E0599", "E0277"}))
+
 POSITIVE = [
  ("Q01", "keys are Send + Sync", "fn s<T: Send + Sync>() {{}} fn f() {{ s::<LocalKey>(); s::<SecretKey>(); s::<PublicKey>(); s::<Key<V, PkeSecret>>(); s::<Key<V, PkePublic>>(); }}"),
  ("Q02", "round trip API shape", "fn f(k: &LocalKey, m: M) -> Result<(), paseto_core::PasetoError> {{ let t = UnencryptedToken::new(m).encrypt(k)?; let s = t.to_string(); let t2: EncryptedToken<M> = s.parse()?; let _ = t2.decrypt(k, &nv())?; Ok(()) }}"),
